@@ -54,7 +54,7 @@ def _payload(rng):
         else:
             ops.append({"op": "now"})
     if rng.random() < 0.12:
-        ops.append({"op": "raise", "type": rng.choice(["E", "A", "K"])})
+        ops.append({"op": "raise", "type": rng.choice(["E", "A", "K", "Z"])})
     if rng.random() < 0.3 and ops:
         # a cleanup that suspends: the task survives its cancellation for a while
         handler = [{"op": "sleep", "d": rng.choice(DELAYS)}] if rng.random() < 0.6 \
@@ -93,10 +93,22 @@ def generate(rng, tier):
         host_body.append({"op": "status", "task": "t"})
     if rng.random() < 0.3:
         host_body.append({"op": "await_task", "task": "t"})
-    host = {"name": "host", "ops": [
-        {"op": "try", "body": [{"op": "scope", "label": "inner", "children": siblings,
-                                "body": host_body}]},
-        {"op": "now", "tag": "after-inner"}]}
+    inner = {"op": "scope", "label": "inner", "children": siblings, "body": host_body}
+    resources = {"L": {"kind": "lock"}, "Q": {"kind": "queue"}}
+    r = rng.random()
+    if r < 0.1:
+        # the scope of the task is torn down in the very turn in which its children were
+        # started (and possibly cancelled): the body fails at once ...
+        host_body.insert(0, {"op": "raise", "type": "E"})
+    elif r < 0.2:
+        # ... or the block is interrupted at its first suspension / after a while
+        resources["STOP"] = {"kind": "flag", "init": rng.random() < 0.6}
+        inner["until"] = {"k": "flag", "n": "STOP"}
+        if not resources["STOP"]["init"]:
+            siblings.append({"name": "stopper", "ops": [{"op": "sleep", "d": rng.choice(DELAYS)},
+                                                        {"op": "flag_set", "on": "STOP"}]})
+    host = {"name": "host", "ops": [{"op": "try", "body": [inner]},
+                                    {"op": "now", "tag": "after-inner"}]}
     outer = [host]
     for i in range(rng.randint(0, 4)):
         ops = []
@@ -121,8 +133,7 @@ def generate(rng, tier):
     actors = [{"name": "par", "ops": [{"op": "scope", "label": "outer", "children": outer,
                                         "body": []}]}]
     return {"property": ID,
-            "scenario": {"resources": {"L": {"kind": "lock"}, "Q": {"kind": "queue"}},
-                         "actors": actors},
+            "scenario": {"resources": resources, "actors": actors},
             "plan": [], "config": {"waitq": rng.choice(["heap", "sd"])}}
 
 
@@ -265,7 +276,7 @@ def check(rec, twin=None):
             elif res[1][1] != "task:t" or tuple(res[1][2]) != tuple(meta[2]):
                 bad("awaiter-token", "%s got %r, expected subject t and token %r"
                     % (res[4], res[1], meta[2]))
-    elif t_exc is not None and t_exc[5][0] in ("ProgError", "ProgErrorA", "ProgKeyError"):
+    elif t_exc is not None and t_exc[5][0] in ("ProgError", "ProgErrorA", "ProgErrorZ", "ProgKeyError"):
         if final != "FAILED":
             bad("failed-status", "t raised %r but its status is %s" % (t_exc[5], final))
         for res in results:
@@ -278,9 +289,16 @@ def check(rec, twin=None):
         for res in results:
             if res[0] != "value" or res[1] != 42:
                 bad("awaiter-result", "%s awaited finished t and got %r" % (res[4], res[:2]))
-    if not started and cancels and "t" in rec.final_status:
-        token = cancels[0]["token"]
+    if not started and first_live is not None and "t" in rec.final_status:
+        # the first cancel that met a live task decides; one that arrives after the task was
+        # closed by its scope changes nothing, and a later close must not replace it either
+        token = first_live["token"]
         for res in results:
+            if first_live["status"] == "RUNNING" and res[0] == "exc" and \
+                    res[1] == ("TaskClosed",):
+                # waiting for its start date: the cancel is a pending signal, and a forceful close
+                # of the scope in that time step may reach the task first (as for a started task)
+                continue
             if res[0] != "exc" or res[1][0] != "TaskCancelled" or \
                     tuple(res[1][2]) != tuple(token) or res[1][1] != "task:t":
                 bad("awaiter-token", "%s awaited pre-start-cancelled t and got %r (token %r)"
@@ -331,14 +349,17 @@ def check(rec, twin=None):
                 if mine.get(actor) != theirs[actor]:
                     bad("sibling-disturbed", "%s behaves differently when t is cancelled: %r"
                         % (actor, _first_diff(mine.get(actor, []), theirs[actor])))
+        twin_raised = {(ev[5], ev[6]) for ev in twin.trace if ev[4] == "scope!"}
+        twin_caught = {(ev[3], ev[5]) for ev in twin.trace if ev[4] == "caught"}
         if not failed and not twin_failed:
             for ev in rec.trace:
-                if ev[4] == "scope!" and ev[5] in ("inner", "outer"):
+                if ev[4] == "scope!" and ev[5] in ("inner", "outer") \
+                        and (ev[5], ev[6]) not in twin_raised:
                     bad("parent-aborted", "scope %s raised %r after t was cancelled"
                         % (ev[5], ev[6]))
         if not twin_failed:
             for ev in rec.trace:
-                if ev[4] == "caught":
+                if ev[4] == "caught" and (ev[3], ev[5]) not in twin_caught:
                     bad("parent-aborted", "%s caught %r after t was cancelled" % (ev[3], ev[5]))
     return out
 
